@@ -1252,14 +1252,11 @@ static int parse_single_cert(psPool_t *pool, const unsigned char **pp,
     case OID_SHA1_ECDSA_SIG:
 #   endif
 #   ifndef ENABLE_SHA1_SIGNED_CERTS
-        if (cert->subject.commonNameLen == cert->issuer.commonNameLen &&
-                Memcmp(cert->subject.commonName,
-                        cert->issuer.commonName,
-                        cert->subject.commonNameLen))
+        if (Memcmp(cert->subject.hash, cert->issuer.hash, SHA1_HASH_SIZE))
         {
             /* Without ENABLE_SHA1_SIGNED_CERTS, SHA-1 based signatures
-               are only allowed for root certs. TODO: improve the above
-               root cert check. */
+               are only allowed for root certs, i.e. certs whose issuer
+               DN equals their subject DN. */
             goto unsupported_sig_alg;
         }
 #   endif /* !ENABLE_SHA1_SIGNED_CERTS */
